@@ -3,7 +3,9 @@ package drv
 import (
 	"fmt"
 	"io"
+	"io/fs"
 	"math/rand"
+	"os"
 	"runtime"
 	"sort"
 	"strings"
@@ -381,13 +383,27 @@ func runC09(c *Ctx) {
 		c.Out.Count("sink_writes_total", int64(n))
 		c.Out.Sample(map[string]interface{}{"workload": f.ID, "sink_writes": n, "records": len(f.Recs), "partition": f.Part, "page": f.Page, "fault_positions": fmt.Sprintf("0..%d x {transient,sticky,partial}", n-1)})
 		for k := 0; k < n; k++ {
-			for mi, mode := range []string{"transient", "sticky", "partial", "fullcount", "transient", "sticky"} {
-				// the last two: a destination that also offers Flush/Sync/Close/WriteString/ReadFrom
-				// (all succeeding), as bufio.Writer, os.File or gzip.Writer do
-				rich := mi >= 4
+			for mi, mode := range []string{"transient", "sticky", "partial", "fullcount", "transient", "sticky", "transient", "transient", "sticky"} {
+				// 4, 5: a destination that also offers Flush/Sync/Close/WriteString/ReadFrom (all
+				// succeeding), as bufio.Writer, os.File or gzip.Writer do
+				rich := mi == 4 || mi == 5
+				// 6..8: the error VALUE is one a library may know: what a closed *os.File returns
+				// (a *fs.PathError wrapping os.ErrClosed), io.EOF, io.ErrShortWrite
+				var failErr error
+				switch mi {
+				case 6:
+					failErr = &fs.PathError{Op: "write", Path: "out.parquet", Err: os.ErrClosed}
+				case 7:
+					failErr = io.EOF
+				case 8:
+					failErr = io.ErrShortWrite
+				}
 				id := fmt.Sprintf("%s/k=%d/%s", f.ID, k, mode)
 				if rich {
 					id += "/rich-sink"
+				}
+				if failErr != nil {
+					id += "/err=" + failErr.Error()
 				}
 				if !c.Take(id) {
 					continue
@@ -396,6 +412,10 @@ func runC09(c *Ctx) {
 				sink := NewSink()
 				sink.FailAt = k
 				sink.FailMode = mode
+				sink.FailErr = failErr
+				if failErr != nil {
+					c.Out.Count("cases_with_a_well_known_error_value", 1)
+				}
 				site := ""
 				sink.Hook = func(ev WriteEvent, p []byte) {
 					if len(sink.Events)-1 == k {
@@ -416,7 +436,7 @@ func runC09(c *Ctx) {
 				}
 				c.Out.Count("site_"+site, 1)
 				c.Out.SetAdd("fault_sites", site)
-				c.Out.Distinct(fmt.Sprintf("%s|%s|%d|%s|%v", f.Shape.Name, CodecNames[f.Codec], k, mode, rich)+f.ID, true)
+				c.Out.Distinct(id, true)
 				bad := func(kind, detail string) {
 					c.Out.Violate(Violation{Prop: "C09", Key: fmt.Sprintf("site=%s;kind=%s", site, kind), Case: id, Shape: f.Shape.Name,
 						Detail: fmt.Sprintf("workload %s: sink write #%d of %d (%s, during %s, mode %s, rich sink %v): %s", f.ID, k, n, site, sink.FailedIn, mode, rich, detail)})
@@ -1187,6 +1207,36 @@ func runC11Embedded(c *Ctx) {
 					tails["tail-of-a-file-with-equal-counts-and-smaller-chunks"] = "\x00REPLACE\x00" + string(fb[po.FooterOff:])
 					tails["whole-file-with-equal-counts-and-smaller-chunks"] = "\x00REPLACE\x00" + string(fb)
 				}
+			}
+		}
+		// footers of the same struct, written by the reference writer, whose numbers are hostile:
+		// a negative or absurdly large total_compressed_size / num_values in the first chunk (a
+		// prefix ending there must be refused with an error, not with a panic or an allocation
+		// sized by the footer)
+		for _, hv := range []struct {
+			name  string
+			total int64
+			nv    int64
+		}{{"total-compressed-size-minus-1", -1, 0}, {"total-compressed-size-2^40", 1 << 40, 0}, {"total-compressed-size-min-int64", -1 << 63, 0}, {"num-values-minus-1", 0, -1}} {
+			hv := hv
+			var oc uint64
+			opool, _ := EnumStructures(sc, lensSmall, 3, &oc)
+			fb, _, err := BuildForeign(sc, opool, []int{len(opool)}, Rng(c.Seed, "c11hostile/"+sh.Name), func(gi, ci int, ch *pqfile.WChunk) {
+				if gi == 0 && ci == 0 {
+					if hv.total != 0 {
+						ch.LieTotalComp = &hv.total
+					}
+					if hv.nv != 0 {
+						ch.LieNumValues = &hv.nv
+					}
+				}
+			})
+			if err != nil {
+				continue
+			}
+			tails["hostile-footer-"+hv.name] = "\x00REPLACE\x00" + string(fb)
+			if c.Shard == 0 {
+				c.Out.Count("embedded_hostile_footers", 1)
 			}
 		}
 		// the tail and the whole body of a file of ANOTHER struct (no column in common with this
